@@ -895,6 +895,7 @@ func (e *Exec) writeRaw(t *T) error {
 
 // readRaw decodes an object file independently of the package under test.
 func (e *Exec) readRaw(uuid string) string {
+	defer e.rawLock()()
 	path := filepath.Join(e.collDir(), e.fileName(uuid))
 	f, err := os.Open(path)
 	if err != nil {
@@ -921,7 +922,19 @@ func (e *Exec) readRaw(uuid string) string {
 	return e.objToken(t)
 }
 
+// rawLock: the harness looks at the directory as another process would, but it must not do so
+// WHILE the background flusher of this process is half way through a flush (some files written,
+// the temporary schema file not renamed yet): raw observations take the handle's own lock.
+func (e *Exec) rawLock() func() {
+	if e.db == nil {
+		return func() {}
+	}
+	e.db.Lock()
+	return e.db.Unlock
+}
+
 func (e *Exec) ls() string {
+	defer e.rawLock()()
 	dir := e.collDir()
 	schema := 0
 	hs := []int{}
@@ -1335,6 +1348,7 @@ var uuidInJSON = regexp.MustCompile(`"([0-9a-fA-F]{8}-[0-9a-fA-F]{4}-[0-9a-fA-F]
 // schemaImage: the bytes of schema.json as they are on disk, in hex, for the model's own JSON
 // reader; the only edit is that every uuid string is replaced by the handle the trace uses for it.
 func (e *Exec) schemaImage() string {
+	defer e.rawLock()()
 	d := e.collDir()
 	if d == "" {
 		return "none"
